@@ -82,7 +82,24 @@ impl Scenario for Race {
     fn state_hash(&self, ctx: &RaceCtx) -> u64 {
         let c = ctx.chain.lock().unwrap();
         let v: Vec<(u128, u64)> = c.versions.iter().map(|v| (v.id.as_u128(), v.h)).collect();
-        crate::util::h64(&(v, c.snapshots.len()))
+        let s: Vec<(u128, u64)> = c.snapshots.iter().map(|(v, b)| (v.as_u128(), snap_hash(b))).collect();
+        crate::util::h64(&(v, s, c.next_id))
+    }
+
+    fn response_hash(&self, ctx: &RaceCtx, _task: usize, label: &str) -> u64 {
+        use crate::world::mserver::short;
+        let c = ctx.chain.lock().unwrap();
+        if let Some(x) = label.strip_prefix("get_child_version(").and_then(|l| l.strip_suffix(')')) {
+            let child = c.versions.iter().find(|v| short(v.parent) == x).map(|v| (v.id.as_u128(), v.h));
+            crate::util::h64(&("gcv", child))
+        } else if label.starts_with("add_version(") {
+            crate::util::h64(&("av", c.latest().map(|u| u.as_u128()), c.next_id))
+        } else if label == "get_snapshot" {
+            let best = c.snapshots.iter().filter_map(|(v, b)| c.index_of(*v).map(|i| (i, snap_hash(b)))).max();
+            crate::util::h64(&("gs", best))
+        } else {
+            0
+        }
     }
 
     fn check(&self, ctx: RaceCtx, results: Vec<Option<Out>>, _stopped: &[bool], _trace: &[(Choice, String)]) -> Result<Outcome, String> {
@@ -158,6 +175,14 @@ fn subsets(n: usize) -> Vec<Vec<usize>> {
     out
 }
 
+/// Hash of a snapshot's decoded content (its bytes depend on hash-map iteration order).
+fn snap_hash(b: &[u8]) -> u64 {
+    match decode_snapshot(b) {
+        Ok(t) => crate::util::h64(&t),
+        Err(_) => crate::util::h64(&b),
+    }
+}
+
 pub fn trace_to_json(tr: &[(Choice, String)]) -> serde_json::Value {
     json!(tr.iter().map(|(c, l)| json!({"choice": c, "at": l})).collect::<Vec<_>>())
 }
@@ -214,6 +239,7 @@ pub fn run(opts: &Opts) -> i32 {
                     bound: if racers.len() >= 3 { bound3 } else { usize::MAX },
                     max_schedules: 2_000_000,
                     deadline: Some(deadline),
+                    seen: Some(Default::default()),
                 };
                 let (st, fails) = explore(&sc, &cfg);
                 (*i, racers.clone(), st, fails)
